@@ -13,7 +13,9 @@ ID = "C16"
 RULE = (
     "augmented matrices: bounded-exhaustive over entries in {-2..2} for shapes 1x2,1x3,2x2,2x3 "
     "(thorough adds 3x2 over {-2..2} and 3x3 over {-1,0,1}), plus Hypothesis-generated int/Fraction "
-    "matrices with entries up to 6 and denominators up to 4 for all shapes up to 3x3; every system is "
+    "matrices with entries up to 6 and denominators up to 4 for all shapes up to 3x3, and float matrices on the "
+    "quarter lattice up to 8 (the entries the library's own callers produce; pivots of magnitude >= 5 over smaller "
+    "entries forced in half of them, so that elimination leaves rounding residues); every system is "
     "solved with two fixed free-parameter vectors and (generated strata) a generated one. Oracle: exact "
     "rational Gaussian elimination (rank test, parameter count, residual of every original equation). "
     "non-trivial = rank-deficient, zero coefficient column or inconsistent; distinct = distinct matrix "
@@ -22,7 +24,7 @@ RULE = (
 )
 ASSUMPTIONS = [
     "solve() is called on a deep copy of the matrix (it reorders rows in place)",
-    "int entries: residual tolerance 1e-9 relative to the row magnitude (the solver divides, producing floats); Fraction entries: exact",
+    "int and float entries: residual tolerance 1e-9 relative to the row magnitude (the solver divides, producing floats); Fraction entries: exact",
 ]
 
 PARAMS = ((1, 1, 1), (2, -3, 5))
@@ -53,7 +55,7 @@ def check(case, ctx):
         else:
             ctx.nontrivial((rows, ctype))
     ctx.sample(cls, case)
-    conv = {"int": int, "frac": F}[ctype]
+    conv = {"int": int, "frac": F, "float": float}[ctype]
     m = [[conv(x) for x in r] for r in rows]
     facts = {
         "zero_leading_column": all(r[0] == 0 for r in rows),
@@ -94,7 +96,7 @@ def _solve_and_check(G, mm, rows, neq, nun, rA, rAb, consistent, ctype, conv, pa
         )
     plist = list(PARAMS) + ([params] if params else [])
     for prm in plist:
-        prm = tuple(conv(x) if ctype == "int" else F(x) for x in prm[:want])
+        prm = tuple(conv(x) if ctype in ("int", "float") else F(x) for x in prm[:want])
         try:
             vals = sol(*prm)
         except Exception as e:
@@ -139,6 +141,10 @@ def gen_matrix(draw, ctype):
     nun = draw(st.integers(2, 3))
     if ctype == "int":
         e = st.integers(-6, 6)
+    elif ctype == "float":
+        # the entries the library itself feeds to the solver: floats on the quarter lattice up to 8 (exactly
+        # representable, so the exact rank is that of the matrix handed over; elimination is inexact)
+        e = st.builds(F, st.integers(-32, 32), st.just(4))
     else:
         e = st.builds(F, st.integers(-12, 12), st.sampled_from([1, 2, 3, 4]))
     mode = draw(st.sampled_from(["free", "dependent", "zerocol", "inconsistent"]))
@@ -152,11 +158,17 @@ def gen_matrix(draw, ctype):
         j = draw(st.integers(0, nun - 1))
         for r in rows:
             r[j] = 0 if ctype == "int" else F(0)
+    if ctype == "float" and draw(st.booleans()):
+        # a pivot of magnitude >= 5 above a smaller entry: the multiplier is then not a short binary fraction
+        i0 = draw(st.integers(0, neq - 1))
+        rows[i0][0] = F(draw(st.sampled_from((22, 23, 25, 26, 27, 29, 31, -22, -25, -29))), 4)
     elif mode == "inconsistent" and neq >= 2:
         rows[-1] = list(rows[0][:-1]) + [rows[0][-1] + 1]
     params = tuple(draw(st.builds(F, st.integers(-9, 9), st.sampled_from([1, 2, 3]))) for _ in range(3))
     if ctype == "int":
         params = tuple(int(p) for p in params)
+    if ctype == "float":
+        params = tuple(F(int(p * 4), 4) for p in params)
     return ("H", tuple(tuple(r) for r in rows), params, ctype)
 
 
@@ -172,6 +184,7 @@ def strata(tier):
     n = 4000 if tier == "quick" else 120000
     s.append(Stratum("gen-int", "hyp", gen_matrix("int"), n))
     s.append(Stratum("gen-frac", "hyp", gen_matrix("frac"), n))
+    s.append(Stratum("gen-float-quarter-lattice", "hyp", gen_matrix("float"), n))
     if tier == "thorough":
         s.append(Stratum("enum-3x2", "enum", _enum(3, 2, v5)))
         s.append(Stratum("enum-3x3-{-1,0,1}", "enum", _enum(3, 3, (-1, 0, 1))))
